@@ -1,4 +1,5 @@
 import CLModel.Model.Registry
+import CLModel.Gen.Verifier
 import CLModel.Model.Primary
 import CLModel.Proofs.NoPanic
 import CLModel.Proofs.NoPanicPrimary
@@ -250,5 +251,9 @@ open CL.Pri in
 /-- the indexing form `map[k]` DOES panic on a missing key: the theorems above are not true
     by construction of the model -/
 example : getOrPanic "a" ([] : List (String × Int)) = .panic := rfl
+
+/-- the premise of `check_key_proof_never_panics` about the code: every name of `xr_cap` is looked
+up in the key BEFORE `r[key]` is indexed, with no exemption -/
+theorem key_proof_index_guard_from_source : Gen.keyProofNamesMustBeInKey = true := rfl
 
 end CL.C20
